@@ -1,0 +1,130 @@
+//go:build verif
+
+package mqtt
+
+// Contracts for keep-alive (C13) and the reconnecting client (C01, C03, C08, C09, C11, C13, C16).
+// Comments only; see verif_contracts_codec.go.
+
+//@ func KeepAlive
+//@   mode int
+//@   props C13
+//@   requires ctx != nil && cli != nil
+//@   assigns nothing
+//@   loop 1 invariant true
+//@   loop 1 iter[C13] one_ping_per_tick: evCount("recv") == 1 && evCount("context.WithTimeout") == 1 && evCount("Client.Ping") == 1 &&
+//@        evArg[context.Context]("context.WithTimeout", 0, 0) == ctx && evArg[time.Duration]("context.WithTimeout", 0, 1) == timeout &&
+//@        evArg[context.Context]("Client.Ping", 0, 1) == evRet[context.Context]("context.WithTimeout", 0, 0) &&
+//@        evIndex("recv", 0) < evIndex("Client.Ping", 0)
+//@   loop 1 iter[C13] keeps_running: evRet[error]("Client.Ping", 0, 0) == nil
+//@   ensures[C13] only_on_ping_error: evCount("Client.Ping") == 1 && evRet[error]("Client.Ping", 0, 0) != nil && result != nil
+//@   ensures[C13] cancelled_first: evRet[int]("select", 0, 0) == 0 ==> evCount("select") == 1 &&
+//@        (evRet[error]("context.Context.Err", 0, 0) != nil && evRet[error]("context.Context.Err", 0, 0) != io.EOF ==> asError(result) != nil && asError(result).Err == evRet[error]("context.Context.Err", 0, 0)) &&
+//@        (evRet[error]("context.Context.Err", 0, 0) == nil ==> result == nil) && (evRet[error]("context.Context.Err", 0, 0) == io.EOF ==> result == io.EOF) && evArg[context.Context]("context.Context.Err", 0, 0) == ctx &&
+//@        evArg[<-chan struct{}]("select", 0, 0) == evRet[<-chan struct{}]("context.Context.Done", 0, 0) && evArg[context.Context]("context.Context.Done", 0, 0) == ctx
+//@   ensures[C13] timeout: evCount("select") == 2 && evRet[int]("select", 1, 0) == 0 ==> asError(result) != nil && asError(result).Err == ErrPingTimeout &&
+//@        evArg[context.Context]("context.Context.Done", 1, 0) == evRet[context.Context]("context.WithTimeout", 0, 0)
+//@   ensures[C13] other_error: evCount("select") == 2 && evRet[int]("select", 1, 0) != 0 ==> result == evRet[error]("Client.Ping", 0, 0)
+
+//@ func (*ReconnectOptions).timeoutContext
+//@   mode int
+//@   props C09
+//@   requires c != nil && ctx != nil
+//@   assigns nothing
+//@   ensures result0 != nil && result1 != nil
+//@   ensures[C09] no_timeout: c.Timeout == 0 ==> result0 == ctx && evCount("context.WithTimeout") == 0
+//@   ensures[C09] with_timeout: c.Timeout != 0 ==> evCount("context.WithTimeout") == 1 && evArg[context.Context]("context.WithTimeout", 0, 0) == ctx &&
+//@        evArg[time.Duration]("context.WithTimeout", 0, 1) == c.Timeout && result0 == evRet[context.Context]("context.WithTimeout", 0, 0)
+
+//@ closer reconnectClient.done (*reconnectClient).Connect$1$1
+
+//@ func (*reconnectClient).Connect$1
+//@   mode int
+//@   props C09 C13 C08 C01 C03
+//@   note the loop goroutine of the reconnecting client. Trusted: Connect is called once per reconnectClient (a second call would close c.done twice).
+//@   requires c != nil && c.options != nil && c.RetryClient != nil && c.dialer != nil && ctx != nil
+//@   requires len(clientID) <= 0xFFFF
+//@   requires forall(0, len(opts), func(i int) bool { return opts[i] != nil })
+//@   requires c.done != nil && !closed(c.done)
+//@   requires done != nil && ownsChan(done) && !closed(done) && !onceDone(doneOnce)
+//@   requires c.options.ReconnectWaitBase >= 0 && c.options.ReconnectWaitMax >= 0 && c.options.ReconnectWaitBase < 1<<62 && c.options.ReconnectWaitMax < 1<<62
+//@   let base time.Duration = c.options.ReconnectWaitBase
+//@   let wmax time.Duration = c.options.ReconnectWaitMax
+//@   loop 1 invariant ctx != nil && !closed(c.done) && (onceDone(doneOnce) || !closed(done)) && (onceDone(doneOnce) ==> ctx == context.Background())
+//@   loop 1 invariant reconnWait >= 0 && reconnWait < 1<<62 && (reconnWait >= base || reconnWait >= wmax)
+//@   loop 1 iterend connected bool = evCount("(*RetryClient).Connect") == 1 && evRet[error]("(*RetryClient).Connect", 0, 1) == nil
+//@   loop 1 iterend waited time.Duration = ite(connected, base, reconnWait)
+//@   loop 1 iter[C09] dial_once: evCount("Dialer.DialContext") == 1 && evArg[Dialer]("Dialer.DialContext", 0, 0) == c.dialer
+//@   loop 1 iter[C09] backoff: evCount("time.After") == 1 && evArg[time.Duration]("time.After", 0, 0) == waited &&
+//@        reconnWait_next == ite(2*waited > wmax, wmax, 2*waited) &&
+//@        evArg[<-chan time.Time]("select", evCount("select")-1, 0) == evRet[<-chan time.Time]("time.After", 0, 0) && evRet[int]("select", evCount("select")-1, 0) == 0
+//@   loop 1 iter[C09] same_connect: evCount("(*RetryClient).Connect") <= 1 && (evCount("(*RetryClient).Connect") == 1 ==>
+//@        evArg[*RetryClient]("(*RetryClient).Connect", 0, 0) == c.RetryClient && evArg[string]("(*RetryClient).Connect", 0, 2) == clientID &&
+//@        sameSlice(evArg[[]ConnectOption]("(*RetryClient).Connect", 0, 3), opts) &&
+//@        evCount("(*RetryClient).SetClient") == 1 && evIndex("(*RetryClient).SetClient", 0) < evIndex("(*RetryClient).Connect", 0) &&
+//@        evArg[*BaseClient]("(*RetryClient).SetClient", 0, 2) == evRet[*BaseClient]("Dialer.DialContext", 0, 0))
+//@   loop 1 iter[C09] connect_iff_dialled: evCount("(*RetryClient).Connect") == ite(evRet[error]("Dialer.DialContext", 0, 1) == nil, 1, 0)
+//@   loop 1 iter[C09] one_live_transport: evRet[error]("Dialer.DialContext", 0, 1) == nil ==>
+//@        evCount("Transport.Close") == 1 && evArg[io.ReadWriteCloser]("Transport.Close", 0, 0) == evRet[*BaseClient]("Dialer.DialContext", 0, 0).Transport &&
+//@        evCount("recv") == 1 && evArg[<-chan struct{}]("recv", 0, 0) == evRet[<-chan struct{}]("(*BaseClient).Done", evCount("(*BaseClient).Done")-1, 0) &&
+//@        evArg[*BaseClient]("(*BaseClient).Done", evCount("(*BaseClient).Done")-1, 0) == evRet[*BaseClient]("Dialer.DialContext", 0, 0) &&
+//@        evIndex("Transport.Close", 0) < evIndex("recv", 0) && evIndex("recv", 0) < evIndex("time.After", 0)
+//@   loop 1 iter[C08] resubscribe_iff: evCount("(*RetryClient).Resubscribe") == ite(connected && initialized && (!evRet[bool]("(*RetryClient).Connect", 0, 0) || c.options.AlwaysResubscribe), 1, 0)
+//@   loop 1 iter[C03] resubscribe_before_retry: evCount("(*RetryClient).Resubscribe") == 1 ==> evIndex("(*RetryClient).Connect", 0) < evIndex("(*RetryClient).Resubscribe", 0) && evIndex("(*RetryClient).Resubscribe", 0) < evIndex("(*RetryClient).Retry", 0)
+//@   loop 1 iter[C01] retry_after_connect: evCount("(*RetryClient).Retry") == ite(connected, 1, 0) && (connected ==> evIndex("(*RetryClient).Connect", 0) < evIndex("(*RetryClient).Retry", 0) && evArg[*RetryClient]("(*RetryClient).Retry", 0, 0) == c.RetryClient)
+//@   loop 1 iter[C13] keepalive_per_connection: evCount("go:(*reconnectClient).Connect$1$3") == ite(connected && c.options.PingInterval > 0, 1, 0) &&
+//@        (evCount("go:(*reconnectClient).Connect$1$3") == 1 ==>
+//@          *closureVar[**BaseClient](evArg[func()]("go:(*reconnectClient).Connect$1$3", 0, 0), "(*reconnectClient).Connect$1$3", 1) == evRet[*BaseClient]("Dialer.DialContext", 0, 0) &&
+//@          *closureVar[**reconnectClient](evArg[func()]("go:(*reconnectClient).Connect$1$3", 0, 0), "(*reconnectClient).Connect$1$3", 2) == c &&
+//@          *closureVar[*context.Context](evArg[func()]("go:(*reconnectClient).Connect$1$3", 0, 0), "(*reconnectClient).Connect$1$3", 0) == evRet[context.Context]("context.WithCancel", 0, 0))
+//@   loop 1 iter[C13] redial_after_connection_loss: connected ==> evCount("select") == 2 && evRet[int]("select", 0, 0) == 0 &&
+//@        evArg[<-chan struct{}]("select", 0, 0) == evRet[<-chan struct{}]("(*BaseClient).Done", 0, 0) && evRet[error]("(*BaseClient).Err", 0, 0) != nil &&
+//@        evCount("callback:context.CancelFunc") >= 1
+//@   loop 1 iter[C09] remembers_success: initialized_next == (initialized || connected)
+//@   loop 1 iter[C09] stop_requests_watched: evArg[chan struct{}]("select", evCount("select")-1, 2) == c.disconnected &&
+//@        evArg[<-chan struct{}]("select", evCount("select")-1, 1) == evRet[<-chan struct{}]("context.Context.Done", evCount("context.Context.Done")-1, 0) &&
+//@        evArg[context.Context]("context.Context.Done", evCount("context.Context.Done")-1, 0) == ctx
+//@   ensures[C09] loop_exit_signalled: closed(c.done)
+//@   ensures[C09] stops_only_when_asked: evCount("select") >= 1 && (evRet[int]("select", evCount("select")-1, 0) == 1 || evRet[int]("select", evCount("select")-1, 0) == 2 ||
+//@        (evRet[int]("select", evCount("select")-1, 0) == 0 && evCount("(*BaseClient).Err") >= 1 && evRet[error]("(*BaseClient).Err", evCount("(*BaseClient).Err")-1, 0) == nil))
+
+//@ func (*reconnectClient).Connect$1$3
+//@   mode int
+//@   props C13 C16
+//@   note the keep-alive goroutine of one connection (baseCli): on a keep-alive failure it records the error on, and closes, that connection.
+//@   requires c != nil && c.options != nil && c.RetryClient != nil && baseCli != nil && baseCli.Transport != nil && ctxKeepAlive != nil
+//@   ensures[C13] keepalive_runs: evCount("KeepAlive") == 1 && evArg[context.Context]("KeepAlive", 0, 0) == ctxKeepAlive && evArg[Client]("KeepAlive", 0, 1) == Client(baseCli) &&
+//@        evArg[time.Duration]("KeepAlive", 0, 2) == c.options.PingInterval && evArg[time.Duration]("KeepAlive", 0, 3) == c.options.Timeout
+//@   ensures[C13] closes_on_failure: evRet[error]("KeepAlive", 0, 0) != nil ==> evCount("Transport.Close") == 1 && evArg[io.ReadWriteCloser]("Transport.Close", 0, 0) == baseCli.Transport
+//@   ensures[C16] own_client: evRet[error]("KeepAlive", 0, 0) != nil ==> evCount("(*BaseClient).SetErrorOnce") == 1 && evArg[*BaseClient]("(*BaseClient).SetErrorOnce", 0, 0) == baseCli &&
+//@        evArg[error]("(*BaseClient).SetErrorOnce", 0, 1) == evRet[error]("KeepAlive", 0, 0) && evIndex("(*BaseClient).SetErrorOnce", 0) < evIndex("Transport.Close", 0)
+
+//@ func (*reconnectClient).Connect
+//@   mode int
+//@   props C09 C13
+//@   note Trusted: Connect is called once per reconnectClient.
+//@   requires c != nil && c.options != nil && c.RetryClient != nil && c.dialer != nil && ctx != nil
+//@   requires len(clientID) <= 0xFFFF
+//@   requires forall(0, len(opts), func(i int) bool { return opts[i] != nil })
+//@   requires c.done != nil && !closed(c.done)
+//@   requires c.options.ReconnectWaitBase >= 0 && c.options.ReconnectWaitMax >= 0 && c.options.ReconnectWaitBase < 1<<62 && c.options.ReconnectWaitMax < 1<<62
+//@   let pi0 time.Duration = c.options.PingInterval
+//@   loop 1 invariant connOptions != nil
+//@   ensures[C09] one_loop: evCount("go:(*reconnectClient).Connect$1") <= 1 && (result1 == nil ==> evCount("go:(*reconnectClient).Connect$1") == 1)
+//@   ensures[C09] first_connection_or_cancel: evCount("go:(*reconnectClient).Connect$1") == 1 ==> evCount("select") == 1 &&
+//@        (evRet[int]("select", 0, 0) == 0 ==> result1 == nil) &&
+//@        (evRet[int]("select", 0, 0) == 1 ==> result0 == false && evArg[<-chan struct{}]("select", 0, 1) == evRet[<-chan struct{}]("context.Context.Done", 0, 0) && evArg[context.Context]("context.Context.Done", 0, 0) == ctx)
+//@   ensures[C13] ping_interval_default: evCount("go:(*reconnectClient).Connect$1") == 1 && pi0 != 0 ==> c.options.PingInterval == pi0
+
+//@ closer reconnectClient.disconnected (*reconnectClient).Disconnect
+
+//@ func (*reconnectClient).Disconnect
+//@   mode int
+//@   props C09
+//@   note Trusted: Disconnect is called once per reconnectClient (a second call would close c.disconnected twice).
+//@   requires c != nil && c.RetryClient != nil && ctx != nil && c.disconnected != nil && !closed(c.disconnected)
+//@   ensures[C09] stop_requested_first: closed(c.disconnected) && evCount("close") == 1 && evArg[chan struct{}]("close", 0, 0) == c.disconnected && evIndex("close", 0) == 0
+//@   ensures[C09] client_disconnected: evCount("(*RetryClient).Disconnect") == 1 && evArg[*RetryClient]("(*RetryClient).Disconnect", 0, 0) == c.RetryClient
+//@   ensures[C09] waits_for_loop_exit: evCount("select") == 1 && evArg[chan struct{}]("select", 0, 0) == c.done &&
+//@        evArg[<-chan struct{}]("select", 0, 1) == evRet[<-chan struct{}]("context.Context.Done", 0, 0) && evArg[context.Context]("context.Context.Done", 0, 0) == ctx &&
+//@        (evRet[int]("select", 0, 0) == 0 ==> result == evRet[error]("(*RetryClient).Disconnect", 0, 0)) &&
+//@        (evRet[int]("select", 0, 0) == 1 && asError(result) != nil ==> asError(result).Err == evRet[error]("context.Context.Err", 0, 0) && evArg[context.Context]("context.Context.Err", 0, 0) == ctx)
